@@ -49,8 +49,8 @@ def run_common(ctx, prop, modules, l1_scripts, stride, nops):
             continue
         if f.cat not in CATS[prop]:
             continue
-        kf = HC.known_class(f.fmt, f.ch, f.text, f.cat)
-        if kf and any(k["id"] == kf and k.get("status") == "known" and prop in k.get("properties", []) for k in ctx.known):
+        kf = HC.known_class(f.fmt, f.ch, f.text, f.cat, f.script, f.line)
+        if kf and still.get(kf) and any(k["id"] == kf and k.get("status") == "known" and prop in k.get("properties", []) for k in ctx.known):
             ctx.known_finding(next(k for k in ctx.known if k["id"] == kf))
             continue
         key = (f.fmt.name if f.fmt else f.name.split("-")[0], f.cat)
